@@ -191,6 +191,82 @@ def rec_scene(seed):
     return rec
 
 
+# ------------------------------------------------------------------------------------------------ IterPSF.tla -> code
+ITER_ROOTS = {1: (20.2, 20.4, 0.3), 2: (60.3, 22.1, 2.0), 3: (40.0, 50.0, -1.0)}
+
+
+def iter_scene(depth, twin):
+    """noise-free realisation of a forest of companion chains: source <<c, d>> has 0.18**(d-1) of the root flux and sits 3.6 px
+    from <<c, d-1>> (hidden in its wing until that one is subtracted); twin chains run in parallel 4.6 px apart"""
+    import math
+    from photutils.psf import CircularGaussianPRF
+    m = CircularGaussianPRF(fwhm=3.0)
+    y, x = np.mgrid[:70, :90]
+    nodes = {}
+    for c, dep in enumerate(depth, start=1):
+        rx, ry, ang = ITER_ROOTS[c]
+        if c == 2 and twin:
+            r1x, r1y, ang = ITER_ROOTS[1]
+            rx, ry = r1x - 4.6 * math.sin(ang), r1y + 4.6 * math.cos(ang)
+        f = 1000.0 - 70.0 * c
+        for d in range(1, dep + 1):
+            nodes[(c, d)] = (rx + 3.6 * (d - 1) * math.cos(ang), ry + 3.6 * (d - 1) * math.sin(ang), f)
+            f *= 0.18
+    data = np.zeros(x.shape)
+    for (px, py, f) in nodes.values():
+        data += m.evaluate(x, y, f, px, py, 3.0)
+    return data, nodes
+
+
+def replay_iter(c):
+    from photutils.detection import DAOStarFinder
+    from photutils.psf import CircularGaussianPRF, IterativePSFPhotometry, SourceGrouper
+    warnings.simplefilter('ignore')
+    depth, twin, mode, k = c['depth'], c['twin'], c['mode'], c['maxiters']
+    sig = {'what': 'IterPSF', 'mode': mode, 'maxiters': k, 'twin': twin, 'depth': depth, 'stopped': c['stopped']}
+    data, nodes = iter_scene(depth, twin)
+    out = []
+    try:
+        ph = IterativePSFPhotometry(CircularGaussianPRF(fwhm=3.0), (5, 5), DAOStarFinder(1.0, 3.0), grouper=SourceGrouper(5.0), aperture_radius=4,
+                                    maxiters=k, mode=mode)
+        t = ph(data)
+    except Exception as e:  # noqa
+        return [('iterative_run_raises', sig, {'case': c, 'exc': repr(e)})]
+    exp_nodes = [tuple(n) for b in c['blocks'] for n in b]
+    rows = []
+    for r in t:
+        near = min(nodes, key=lambda n: (nodes[n][0] - float(r['x_fit'])) ** 2 + (nodes[n][1] - float(r['y_fit'])) ** 2)
+        dist = ((nodes[near][0] - float(r['x_fit'])) ** 2 + (nodes[near][1] - float(r['y_fit'])) ** 2) ** 0.5
+        rows.append((near if dist < 0.8 else None, int(r['id']), int(r['iter_detected']), int(r['group_id']), int(r['group_size']),
+                     float(r['x_fit']), float(r['y_fit']), float(r['flux_fit'])))
+    det = {'case': c, 'rows': [[list(r[0]) if r[0] else None] + list(r[1:5]) for r in rows]}
+    if sorted(r[0] for r in rows if r[0]) != sorted(exp_nodes) or any(r[0] is None for r in rows):
+        return [('table_holds_the_sources_detectable_within_maxiters_iterations', sig, det)]
+    if [r[1] for r in rows] != list(range(1, len(rows) + 1)):
+        out.append(('rows_in_input_order_with_ids_1_to_n', sig, det))
+    if any(r[2] != r[0][1] for r in rows) or [r[2] for r in rows] != sorted(r[2] for r in rows):
+        out.append(('iter_detected_is_the_iteration_of_first_detection', sig, det))
+    got_groups = sorted(sorted(list(r[0]) for r in rows if r[3] == g) for g in {r[3] for r in rows})
+    exp_groups = sorted(sorted(list(n) for n in g) for g in c['groups'])
+    if got_groups != exp_groups:
+        out.append(('group_ids_are_single_linkage_clusters_or_supplied', sig, dict(det, got_groups=got_groups)))
+    else:
+        first = []
+        for r in rows:
+            if r[3] not in first:
+                first.append(r[3])
+        if first != list(range(1, len(first) + 1)):
+            out.append(('group_ids_numbered_by_first_appearance', sig, det))
+        if any(r[4] != sum(1 for q in rows if q[3] == r[3]) for r in rows):
+            out.append(('group_size_counts_group_members', sig, det))
+    # all sources fitted together on the data once everything is detected: the rendered values come back
+    if mode == 'all' and k >= max(depth):
+        bad = [(r[0], r[5], r[6], r[7]) for r in rows if abs(r[5] - nodes[r[0]][0]) > 2e-3 or abs(r[6] - nodes[r[0]][1]) > 2e-3 or abs(r[7] / nodes[r[0]][2] - 1) > 2e-3]
+        if bad:
+            out.append(('recovers_rendered_positions', sig, dict(det, bad=str(bad)[:300])))
+    return out
+
+
 def run(ctx):
     q = ctx.quick
     ctx.rule = ('seeded scenes rendered from the fitted PSF model (Gaussian PRFs, image-based, gridded), 1-5 sources with distinct fluxes in shuffled row order, '
@@ -202,6 +278,22 @@ def run(ctx):
         r = ctx.mc('PSFBook', b, workers=2, expect_hold=False, check_ok=False)
         if 'OwnRow' not in r.violated:
             raise core.Machinery(f'vacuity guard: {b} not rejected')
+    # IterativePSFPhotometry as a state machine: every state of IterPSF.tla is the predicted table of a run with maxiters = it
+    ctx.mc('IterPSF', 'MC_IterPSF.cfg', workers=4)
+    for b, inv in (('MC_IterPSF_bad1.cfg', 'GidsContiguous'), ('MC_IterPSF_bad2.cfg', 'GroupsAreFitGroups')):
+        r = ctx.mc('IterPSF', b, workers=2, expect_hold=False, check_ok=False)
+        if inv not in r.violated:
+            raise core.Machinery(f'vacuity guard: {b} not rejected')
+    g = ctx.tlc('IterPSF', 'GEN_IterPSF.cfg', part='GEN:IterPSF', workers=1)
+    icases = [rec for rec in g.records if rec.get('_tag') == 'GEN']
+    if q:
+        icases = icases[ctx.seed % 2::2]
+    for vs in core.pmap(replay_iter, icases, chunksize=2):
+        for v in vs:
+            ctx.violation(*v)
+    ctx.evaluations += len(icases); ctx.traces += len(icases)
+    ctx.nontrivial += sum(1 for c in icases if len(c['blocks']) >= 2)
+    ctx.sample({'kind': 'GEN IterPSF state', **{k: icases[len(icases) // 2][k] for k in ('depth', 'twin', 'mode', 'maxiters', 'blocks', 'groups')}})
     n = 320 if q else 5000
     recs = core.pmap(rec_scene, [ctx.seed * 9301 + i for i in range(n)], chunksize=2)
     for r in recs:      # rename for the trace spec (id = case id, idx = id column)
